@@ -302,6 +302,18 @@ func gen(t *rapid.T) Case {
 		return hist.Op{K: "dataset", Path: p, D: d, Alias: alias}
 	}
 	c.Ops = append(c.Ops, newObj(0), newObj(1))
+	if rapid.IntRange(0, 11).Draw(t, "crowded") == 0 {
+		// a crowded group: the 32-entry symbol table node and the 256-byte name heap of a group fill up; what is refused
+		// or accepted at that boundary must leave the members that exist alone
+		nobj = rapid.IntRange(30, 36).Draw(t, "nobjCrowded")
+		for len(objs) < nobj-2 {
+			i := len(objs)
+			p := fmt.Sprintf("/o%d", i)
+			d := &hist.DSpec{Type: "i32", Dims: []uint64{1}}
+			objs = append(objs, objInfo{path: p, kind: "dataset", rank: 1, spec: d})
+			c.Ops = append(c.Ops, hist.Op{K: "dataset", Path: p, D: d}, hist.Op{K: "write", Path: p, Seed: i, Mode: 1})
+		}
+	}
 	n := rapid.IntRange(3, vt.N(40, 120)).Draw(t, "nops")
 	links := 0
 	withReopen := rapid.IntRange(0, 4).Draw(t, "withReopen") == 0
